@@ -614,6 +614,8 @@ func main() {
 		f := func(i int) *Expr { return &Expr{Op: "field", I: i} }
 		lit := func(v int64) *Expr { return &Expr{Op: "lit", Int: &v} }
 		run(c, caseT{Kind: "model", Rows: rows, Exprs: []*Expr{{Op: "coalesce", A: f(1), B: &Expr{Op: "add", A: f(0), B: lit(1)}}, {Op: "intdiv", A: f(0), B: lit(0)}, {Op: "isnull", A: f(3)}, {Op: "concat", A: f(2), B: f(3)}}})
+		four := int64(4)
+		run(c, caseT{Kind: "model", Rows: []BaseRow{{A: 6, B: nil, S: "a", T: nil}}, Exprs: []*Expr{{Op: "mul", A: f(0), B: &Expr{Op: "mod", A: &Expr{Op: "lit", Int: &four}, B: f(0)}}}})
 		mixRows := []string{"INSERT INTO t VALUES (1,1,NULL,NULL,'a','a',0.10,1.5,'2024-01-10'),(2,1,1,5,'b','B',NULL,NULL,NULL),(3,2,2,NULL,NULL,NULL,1.25,2.5,'2024-02-11')",
 			"INSERT INTO u VALUES (1,1,NULL,'p'),(2,5,2,'')"}
 		for _, q := range []string{
@@ -637,7 +639,7 @@ func main() {
 		} {
 			run(c, caseT{Kind: "sql", Setup: append(append(append([]string(nil), mixSetup...), mixRows...), wRows...), SQL: q})
 		}
-		for i := 18; i < c.N; i++ {
+		for i := 19; i < c.N; i++ {
 			r := c.R.Fork()
 			if r.Bool() {
 				n := r.Range(1, 4)
